@@ -88,6 +88,7 @@ type ProviderSpec struct {
 	DeclOrder         int
 	IsReturnError     bool
 	IsAsync           bool
+	IsVariadic        bool
 }
 
 type Return struct {
